@@ -534,4 +534,49 @@ def r14_10(ctx):
     ctx.floor(n, 8, "division sites with a local divisor in the layout modules")
 
 
-RULES = [r14_1, r14_2, r14_3, r14_4, r14_5, r14_6, r14_7, r14_8, r14_9, r14_10]
+def r14_11(ctx):
+    from .. import cfg as cfgmod
+    from ..yieldpaths import canon_test
+    ctx.rule("R14.11", "no max()/min() over the pieces of a possibly blank string: `max(f(x) for x in s.splitlines())` needs s to be non-empty and `... in s.split()` needs s to contain a non-space character - each such call (whole package, demos excluded) has default=, or sits in the true arm of a conditional on s / s.strip(), or is dominated by a fact that s (for split(): s.strip()) is truthy; otherwise measuring a renderable whose text is empty raises ValueError")
+    n = 0
+    for m in ctx.repo.modules.values():
+        for f in m.functions.values():
+            if m.in_main_guard(f.node):
+                continue
+            g = None
+            for x in walk_local(f.node):
+                if not (isinstance(x, ast.Call) and isinstance(x.func, ast.Name) and x.func.id in ("max", "min") and len(x.args) == 1 and isinstance(x.args[0], (ast.GeneratorExp, ast.ListComp)) and len(x.args[0].generators) == 1):
+                    continue
+                it = x.args[0].generators[0].iter
+                if not (isinstance(it, ast.Call) and isinstance(it.func, ast.Attribute) and it.func.attr in ("splitlines", "split") and not it.args and not it.keywords):
+                    continue
+                n += 1
+                where = f"{m.relpath}:{x.lineno}"
+                sname = norm(it.func.value)
+                need = {sname, f"{sname}.strip()"} if it.func.attr == "splitlines" else {f"{sname}.strip()"}
+                if any(k.arg == "default" for k in x.keywords):
+                    ctx.ok(where, f"{x.func.id}() over {sname}.{it.func.attr}() has default=", f.fq)
+                    continue
+                par = m.parent_of.get(x)
+                if isinstance(par, ast.IfExp) and par.body is x and norm(par.test) in need:
+                    ctx.ok(where, f"{x.func.id}() over {sname}.{it.func.attr}() only when `{norm(par.test)}`", f.fq)
+                    continue
+                if g is None:
+                    g = cfgmod.build(f.node)
+                st = x
+                while not isinstance(st, ast.stmt):
+                    st = m.parent_of[st]
+                truthy = set()
+                for nid in g.nodes_of(st):
+                    for t, v in g.branch_facts(nid):
+                        for a, tv in canon_test(t, v):
+                            if tv is True:
+                                truthy.add(a)
+                            elif a.startswith("not "):
+                                truthy.add(a[4:])
+                ctx.check(bool(need & truthy), f.fq, short(x), where, f"{x.func.id}() over {sname}.{it.func.attr}() is dominated by a non-blank test of {sname}",
+                          f"`{short(x)}`: `{sname}.{it.func.attr}()` is empty when `{sname}` is {'empty' if it.func.attr == 'splitlines' else 'blank'} and nothing on the way excludes that (no default=, no dominating test of {sorted(need)}): {x.func.id}() raises ValueError - e.g. measuring Pretty(obj) for an object whose repr is the empty string")
+    ctx.floor(n, 2, "max()/min() over split pieces of a string")
+
+
+RULES = [r14_1, r14_2, r14_3, r14_4, r14_5, r14_6, r14_7, r14_8, r14_9, r14_10, r14_11]
